@@ -53,18 +53,93 @@ def gen(run):
                 continue
             seen.add(text)
             cases.append({"text": text, "origin": f"{name}:{how}", "tpl": name})
+            # the same statement executed twice with changed operands (jump back to its line): every call must be made again
+            lines = text.rstrip("\n").split("\n")
+            k = next((j for j, ln in enumerate(lines) if ln.startswith("100 ")), len(lines))
+            again = lines[:k] + ["90 KK = KK + 1 : V = V + 1 : W = W + 1 : IF KK < 2 THEN 30"] + lines[k:]
+            cases.append({"text": "\n".join(again) + "\n", "origin": f"{name}:{how}:twice", "tpl": name})
         run.states += 1 + len(seen)
         run.transitions += len(seen)
     return cases
 
 
+TMP = re.compile(r"tmp_\d+\$?")
+
+
+def static_tmp_check(out):
+    """'The emitted text never reads a temporary that the same statement group did not assign': within the text that belongs to
+    one source line (label .. next label) the first occurrence of every temporary must be an assignment - the result (last)
+    argument of a RUN, the left side of :=, or a READ / INPUT / GET target."""
+    if not out:
+        return None
+    body = out.replace("\r\n", "\n").replace("\r", "\n")
+    # user procedure only (the library has its own locals)
+    idx = [m.start() for m in re.finditer(r"(?im)^procedure\s", body)]
+    if idx:
+        body = body[idx[-1]:]
+    regions, cur = [], []
+    for ln in body.split("\n"):
+        if re.match(r"\s*\d+\s", ln) and cur:
+            regions.append(cur)
+            cur = []
+        cur.append(ln)
+    regions.append(cur)
+    for reg in regions:
+        assigned = set()
+        for ln in reg:
+            if re.match(r"(?i)\s*(dim|param|type)\b", ln):
+                continue
+            for stmt in re.split(r"\\", re.sub(r'"[^"]*"', '""', ln)):
+                st = stmt.strip()
+                st = re.sub(r"^\d+\s+", "", st)
+                writes = set()
+                m = re.match(r"(?i)(RUN\s+\w+\s*\()(.*)\)\s*$", st)
+                if m:
+                    # last top-level argument
+                    depth, last = 0, 0
+                    args = m.group(2)
+                    for i, ch in enumerate(args):
+                        if ch == "(":
+                            depth += 1
+                        elif ch == ")":
+                            depth -= 1
+                        elif ch == "," and depth == 0:
+                            last = i + 1
+                    la = args[last:].strip()
+                    if TMP.fullmatch(la):
+                        writes.add(la)
+                    reads = TMP.findall(args[:last])
+                else:
+                    m2 = re.match(r"(?i)(tmp_\d+\$?)\s*:?=(?!=)", st)
+                    m3 = re.match(r"(?i)(READ|INPUT|GET)\b(.*)$", st)
+                    if m2:
+                        writes.add(m2.group(1))
+                        reads = TMP.findall(st[m2.end():])
+                    elif m3:
+                        writes |= set(TMP.findall(m3.group(2)))
+                        reads = []
+                    elif re.match(r"(?i)FOR\s+(tmp_\d+)\s*=", st):
+                        writes.add(re.match(r"(?i)FOR\s+(tmp_\d+)", st).group(1))
+                        reads = TMP.findall(st.split("=", 1)[1])
+                    else:
+                        reads = TMP.findall(st)
+                for r in reads:
+                    if r not in assigned:
+                        return f"{r} is read in {st!r} but the text of this source line (from its label on) has not assigned it before"
+                assigned |= writes
+    return None
+
+
 def judge(text, tpl=""):
     # FOR templates: an empty range is the known C02 finding (bottom- vs top-tested loop); only calls are judged there
-    v = sem.compare(text, {"initialize_vars": True, "default_str_storage": 80}, script_factory=R.Script, decb_horizon=300, check_stop=False, check_store=not tpl.startswith("for"))
+    v = sem.compare(text, {"initialize_vars": True, "default_str_storage": 255}, script_factory=R.Script, decb_horizon=300, check_stop=False, check_store=not tpl.startswith("for"))
     if v.kind in ("outside", "refused"):
         return v.kind, v.symptom, v.detail, v.out
     if v.kind == "violation":
         return v.kind, v.symptom, v.detail, v.out
+    st = static_tmp_check(v.out)
+    if st:
+        return "violation", "tmp-read-before-assign", st, v.out
     if v.decb is None or v.b09 is None:
         return v.kind, v.symptom, v.detail, v.out
     if v.kind == "noverdict" and v.symptom != "unspec-values":
